@@ -1136,6 +1136,9 @@ func (mgr *Manager) DelTag(name string) error {
 	return <-c
 }
 
+// plainIDListRegexp matches mark definitions of the form id:1,2,3 that can be extended by appending ids.
+var plainIDListRegexp = regexp.MustCompile(`^id:\d+(,\d+)*$`)
+
 func UpdateTagOperationMarkAddStream(streams []uint64) UpdateTagOperation {
 	s := make([]uint64, 0, len(streams))
 	s = append(s, streams...)
@@ -1362,8 +1365,11 @@ func (mgr *Manager) UpdateTag(name string, operation UpdateTagOperation) error {
 						}
 						if newTag.definition == "id:-1" {
 							newTag.definition = markQuery
-						} else {
+						} else if plainIDListRegexp.MatchString(newTag.definition) {
 							newTag.definition = fmt.Sprintf("%s,%s", newTag.definition, markQuery[3:])
+						} else {
+							// appending ids is only valid for a plain id list
+							newTag.definition = fmt.Sprintf("(%s) or %s", newTag.definition, markQuery)
 						}
 					}
 				}
